@@ -45,7 +45,8 @@ def _run_job(args):
         mod = importlib.import_module("props." + pid)
         jobs = {j.name: j for j in mod.jobs(tier)}
         job = jobs[jobname]
-        results, stats = core.explore(job.harness, job.params, max_paths=job.max_paths, timeout=job.timeout,
+        cap = float(os.environ.get("VERIF_JOB_CAP_S", "900" if tier == "quick" else "14400"))
+        results, stats = core.explore(job.harness, job.params, max_paths=job.max_paths, timeout=min(job.timeout, cap),
                                       validate=job.validate, seed=seed)
     except BaseException as e:  # noqa
         return dict(job=jobname, crashed=traceback.format_exc()[-3000:])
@@ -138,6 +139,57 @@ def _run_job(args):
     return out
 
 
+def _job_to_file(args, path):
+    import pickle
+
+    out = _run_job(args)
+    with open(path + ".tmp", "wb") as f:
+        pickle.dump(out, f)
+    os.replace(path + ".tmp", path)
+
+
+def _run_isolated(args, nproc, limits):
+    """one OS process per job, at most nproc at a time, each under a hard wall-clock limit"""
+    import pickle
+    import tempfile
+    import shutil
+
+    ctx = mp.get_context("fork")
+    tmp = tempfile.mkdtemp(prefix="symx_")
+    pending = list(enumerate(args))
+    running = {}
+    outs = []
+    try:
+        while pending or running:
+            while pending and len(running) < nproc:
+                i, a = pending.pop(0)
+                path = os.path.join(tmp, "%d.pkl" % i)
+                p = ctx.Process(target=_job_to_file, args=(a, path))
+                p.start()
+                running[i] = (p, a, path, time.time())
+            time.sleep(0.05)
+            for i in list(running):
+                p, a, path, t0 = running[i]
+                if not p.is_alive():
+                    p.join()
+                    if os.path.exists(path):
+                        with open(path, "rb") as f:
+                            outs.append(pickle.load(f))
+                    else:
+                        outs.append(dict(job=a[1], crashed="worker process died (exit code %s)" % p.exitcode))
+                    del running[i]
+                elif time.time() - t0 > limits[a[1]]:
+                    p.kill()
+                    p.join()
+                    outs.append(dict(job=a[1], crashed="hard wall-clock limit of %d s exceeded (solver did not return within its timeouts)" % limits[a[1]]))
+                    del running[i]
+    finally:
+        for p, a, path, t0 in running.values():
+            p.kill()
+        shutil.rmtree(tmp, ignore_errors=True)
+    return outs
+
+
 def load_known():
     p = os.path.join(ROOT, "known_findings.json")
     if not os.path.exists(p):
@@ -189,12 +241,14 @@ def main(argv=None):
     order.sort(key=lambda j: (-j.cost, rnd.random()))
     args = [(pid, j.name, tier, seed) for j in order]
     nproc = max(1, min(a.jobs, len(args)))
-    if nproc == 1:
+    # hard wall-clock limit per job: the solver's own timeouts are cooperative and can be overrun (big-number arithmetic
+    # inside z3's nonlinear core); a job that overruns is killed and reported as inconclusive, never as success
+    cap = float(os.environ.get("VERIF_JOB_CAP_S", "900" if tier == "quick" else "14400"))
+    limits = {j.name: min(j.timeout, cap) + 60 for j in order}
+    if nproc == 1 and os.environ.get("VERIF_INPROCESS"):
         outs = [_run_job(x) for x in args]
     else:
-        ctx = mp.get_context("fork")
-        with ctx.Pool(nproc, maxtasksperchild=4) as pool:
-            outs = list(pool.imap_unordered(_run_job, args, chunksize=1))
+        outs = _run_isolated(args, nproc, limits)
     outs.sort(key=lambda o: o["job"])
     return report(pid, tier, seed, mod, outs, time.time() - t0, verbose=a.v, partial=bool(a.only))
 
